@@ -167,6 +167,10 @@ def run(ctx):
     exit_codes(ctx, "R16-c")
     raw_subtractions(ctx, "R16-d")
     char_byte_units(ctx, "R16-f")
+    config_valued_panics(ctx, "R16-g")
+    path_parent_unwraps(ctx, "R16-h")
+    import c03
+    c03.offset_base_agreement(ctx, "R16-i")
 
     # R16-e ---------------------------------------------------------------------------------------
     r.rule("R16-e", "Cargo.toml profiles do not set panic = \"abort\" (catch_unwind would be void)")
@@ -320,6 +324,45 @@ def _ret_taint(p, fn, depth):
     return out
 
 
+STR_FIND = ("core::str::<impl str>::find", "core::str::<impl str>::rfind")
+
+
+def _shift_of(rv):
+    """(op, k, other operand) when rv is `x ± k` with a positive integer constant k"""
+    if rv[0] != "bin":
+        return None
+    op = rv[1].replace("WithOverflow", "").replace("Unchecked", "")
+    if op not in ("Add", "Sub"):
+        return None
+    a, b = rv[2], rv[3]
+    for kc, oth in ((a, b), (b, a)):
+        if kc[0] == "k" and oth[0] != "k" and isinstance(kc[2], int) and not isinstance(kc[2], bool) and 0 < kc[2] <= 8:
+            if op == "Sub" and kc is a:
+                return None
+            return (op, kc[2], oth)
+    return None
+
+
+def _shifted_find(fn, op, k, local):
+    """R16-g: is `local ± k` a byte index that may fall inside a character?  local derives from str::find / rfind.
+    `+k` is exact only after a literal ASCII pattern of k bytes; `-k` presumes the preceding character is k bytes wide."""
+    d = fn.derived_from(local, stop_calls=lambda c: c.name in STR_FIND)
+    out = []
+    for fc in d["calls"]:
+        if fc.name not in STR_FIND or len(fc.args) < 2:
+            continue
+        o = operand_origin(fn, fc.args[1])
+        lit = None
+        if o[0] == "const" and isinstance(o[1], dict):
+            lit = o[1].get("char") if "char" in o[1] else o[1].get("str")
+        literal_ok = isinstance(lit, str) and lit.isascii() and len(lit) == k
+        if op == "Sub":
+            out.append("byte index of a found character − %d (the preceding character may be wider than %d byte)" % (k, k))
+        elif not literal_ok:
+            out.append("byte index of a character matched by a predicate + %d (the character may be wider than %d byte)" % (k, k))
+    return out
+
+
 def _taint_sources(p, fn, local, depth=0):
     """char-count sources a local derives from, stopping at char→byte conversions"""
     seen = set()
@@ -333,6 +376,9 @@ def _taint_sources(p, fn, local, depth=0):
         for bb, kind, payload in fn.defs().get(l, []):
             if kind in ("assign", "partial") and not hasattr(payload, "callee"):
                 rv = payload[2]
+                sh = _shift_of(rv)
+                if sh is not None:
+                    out += _shifted_find(fn, sh[0], sh[1], sh[2][1][0])
                 for op in rvalue_operands(rv):
                     if op[0] != "k":
                         work.append(op[1][0])
@@ -347,6 +393,17 @@ def _taint_sources(p, fn, local, depth=0):
             else:
                 c = payload
                 nm = c.name
+                # Option<usize>::map(|pos| pos ± k) applied to the result of a find
+                if nm.rsplit("::", 1)[-1] in ("map", "map_or", "map_or_else", "and_then") and "Option" in nm and c.args and c.args[0][0] != "k":
+                    for ref in c.refs:
+                        g = p.fns.get(ref)
+                        if g is None or g.kind != "Closure":
+                            continue
+                        for bb2, i2, st2 in g.stmts():
+                            if st2[0] == "=":
+                                sh = _shift_of(st2[2])
+                                if sh is not None and not sh[2][1][1] and local_origin(g, sh[2][1][0])[0] == "arg":
+                                    out += _shifted_find(fn, sh[0], sh[1], c.args[0][1][0])
                 body = p.fns.get(c.resolved or "")
                 sanit = any(x in nm for x in BYTE_SANITIZERS) and "count" not in nm.rsplit("::", 1)[-1]
                 if body is not None and body.kind == "Closure" and any("char_indices" in cc.name for cc in body.calls()):
@@ -375,8 +432,10 @@ def char_byte_units(ctx, rid):
     _RET_TAINT.clear()
     r.rule(rid, "unit discipline at panicking sinks: the range / offset operand of a `str` slice (Index/get/split_at) or of an "
                 "annotate-snippets span does not derive from a character or column count (chars().count(), width functions, "
-                "LineOverflow payload) unless it went through a char→byte conversion (char_indices, len, find, …): such a slice "
-                "panics with `byte index N is not a char boundary` on the first multi-byte character")
+                "LineOverflow payload) unless it went through a char→byte conversion (char_indices, len, find, …), nor from a byte "
+                "index returned by str::find / rfind shifted by a constant that presumes the width of a character (`+k` after a "
+                "non-literal pattern, `−k` at all): such a slice panics with `byte index N is not a char boundary` on the first "
+                "multi-byte character")
     tab = ctx.table("C16")
     exc = {e["fn"]: e["reason"] for e in tab.get("unit_exception", [])}
     n = 0
@@ -406,3 +465,106 @@ def char_byte_units(ctx, rid):
                         "a byte-indexed operation on text receives an offset computed from %s: with non-ASCII text the offset "
                         "falls inside a character and rustfmt panics" % sorted(set(srcs)), [c.loc()])
     r.floor(rid, n, 60, "str slicing / span sinks examined")
+
+
+def config_valued_panics(ctx, rid):
+    """R16-g: operations that panic on particular *values* receive no unconstrained configuration value"""
+    p, r = ctx.p, ctx.r
+    r.rule(rid, "(a) no `/` or `%` whose divisor is the result of a Config getter (every integer option accepts 0) unless a "
+                "comparison of that getter with a constant dominates it — the idiom is checked_div / checked_rem; "
+                "(b) no Ord::clamp whose bounds derive from two different Config getters (clamp asserts min ≤ max and the "
+                "configuration does not relate the two options)")
+    n_div = n_clamp = 0
+    for f in p.by_crate["rustfmt_nightly"]:
+        if "print_docs" in f.id:
+            continue
+        for bb, i, s in f.stmts():
+            if s[0] != "=" or s[2][0] != "bin" or s[2][1] not in ("Div", "Rem"):
+                continue
+            n_div += 1
+            b = s[2][3]
+            if b[0] == "k":
+                continue
+            d = f.derived_from(b[1][0])
+            getters = [c for c in d["calls"] if is_config_getter(c)]
+            if not getters:
+                continue
+            # clamped away from zero on the way (`.max(1)`)?
+            floored = any(c.name.endswith("::max") and any(a[0] == "k" and isinstance(a[2], int) and a[2] >= 1 for a in c.args)
+                          for c in d["calls"])
+            dom = f.dominators()
+            guarded = floored
+            for dbb in dom.get(bb, ()):
+                t = f.term(dbb)
+                if t[0] != "switch":
+                    continue
+                o = operand_origin(f, t[1])
+                if o and o[0] == "bin" and o[1] in ("Eq", "Ne", "Lt", "Le", "Gt", "Ge"):
+                    sides = (o[2], o[3])
+                    if any(x[0] == "call" and is_config_getter(x[1]) and x[1].name == getters[0].name for x in sides) \
+                            and any(x[0] == "const" for x in sides):
+                        guarded = True
+                if o and o[0] == "call" and is_config_getter(o[1]) and o[1].name == getters[0].name and t[4] != "bool":
+                    guarded = True     # switchInt(getter()) -> [0: .., otherwise: ..]
+            key = "%s: %s by %s" % (short(f.id), "division" if s[2][1] == "Div" else "remainder", short(getters[0].name))
+            r.instance(rid, key, "guarded" if guarded else "violation", "%s:%d" % (f.file, s[3]))
+            if not guarded:
+                r.violation(rid, key,
+                            "`x %s %s()` panics with `attempt to %s` when the option is 0, a value the configuration accepts"
+                            % ("/" if s[2][1] == "Div" else "%", short(getters[0].name),
+                               "divide by zero" if s[2][1] == "Div" else "calculate the remainder with a divisor of zero"),
+                            ["%s:%d" % (f.file, s[3])])
+        for c in f.calls():
+            if not (c.name.endswith("::clamp") or (c.declared or "").endswith("cmp::Ord::clamp")) or len(c.args) < 3:
+                continue
+            n_clamp += 1
+            gs = []
+            for a in c.args[1:3]:
+                if a[0] == "k":
+                    gs.append(set())
+                else:
+                    gs.append({x.name for x in f.derived_from(a[1][0])["calls"] if is_config_getter(x)})
+            if gs[0] and gs[1] and gs[0] != gs[1]:
+                key = "%s: clamp between %s and %s" % (short(f.id), short(sorted(gs[0])[0]), short(sorted(gs[1])[0]))
+                r.instance(rid, key, "violation", c.loc())
+                r.violation(rid, key,
+                            "Ord::clamp panics (`assertion failed: min <= max`) when %s exceeds %s; nothing in the configuration "
+                            "orders the two options" % (short(sorted(gs[0])[0]), short(sorted(gs[1])[0])), [c.loc()])
+    # conforming idiom present (positive control)
+    chk = [c for c in p.all_calls(crate="rustfmt_nightly") if c.name.endswith("::checked_div") or c.name.endswith("::checked_rem")]
+    r.instance(rid, "divisions examined", "ok", "", "%d Div/Rem statements, %d clamp calls, %d checked_div/checked_rem" % (n_div, n_clamp, len(chk)),
+               nontrivial=False)
+    r.floor(rid, n_div + len(chk), 4, "divisions (raw or checked) in the library")
+
+
+def path_parent_unwraps(ctx, rid):
+    """R16-h: Path::parent() is unwrapped only for paths known to name a file"""
+    p, r = ctx.p, ctx.r
+    r.rule(rid, "in the command-line tools, `path.parent().unwrap()` is dominated by the false edge of `path.is_dir()` on the "
+                "same path (a path that names an existing non-directory always has a parent; `/` does not)")
+    n = 0
+    for crate in ("rustfmt", "cargo_fmt", "rustfmt_format_diff", "git_rustfmt"):
+        for f in p.by_crate.get(crate, []):
+            for c in f.calls():
+                if not c.name.endswith("Path::parent"):
+                    continue
+                users = [x for x in f.calls() if x.args and x.args[0][0] != "k" and not x.args[0][1][1] and x.args[0][1][0] == c.dest[0]]
+                for u in users:
+                    if not (u.name.endswith("Option::<T>::unwrap") or u.name.endswith("Option::<T>::expect")):
+                        continue
+                    n += 1
+                    from common import expr_key
+                    pk = expr_key(f, c.args[0])
+                    guarded = False
+                    for g in f.calls():
+                        if g.name.endswith("Path::is_dir") and g.args and expr_key(f, g.args[0]) == pk and not g.dest[1]:
+                            from common import bool_branches, edge_dominates
+                            for (sw, t_true, t_false) in bool_branches(f, g.dest[0]):
+                                if edge_dominates(f, (sw, t_false), u.bb):
+                                    guarded = True
+                    key = "%s: parent().unwrap()" % short(f.id)
+                    r.instance(rid, key, "ok" if guarded else "violation", u.loc())
+                    if not guarded:
+                        r.violation(rid, key, "Path::parent() of a user-supplied path is unwrapped without having excluded a directory: "
+                                              "a root path makes the tool panic", [u.loc()])
+    r.floor(rid, n, 1, "parent().unwrap() sites in the tools")
